@@ -40,10 +40,24 @@ type vNet struct {
 	names   map[peer.ID]string
 	mu      sync.Mutex
 	closed  bool
+	down    map[[2]peer.ID]bool // pairs being / having been disconnected by the harness
 }
 
 func newVNet(c *vCase) *vNet {
-	return &vNet{c: c, mn: mocknet.New(), names: map[peer.ID]string{}}
+	return &vNet{c: c, mn: mocknet.New(), names: map[peer.ID]string{}, down: map[[2]peer.ID]bool{}}
+}
+
+func vPair(a, b peer.ID) [2]peer.ID {
+	if a > b {
+		a, b = b, a
+	}
+	return [2]peer.ID{a, b}
+}
+
+func (n *vNet) isDown(a, b peer.ID) bool {
+	n.mu.Lock()
+	defer n.mu.Unlock()
+	return n.down[vPair(a, b)]
 }
 
 type vRandReader struct{ c *vCase }
@@ -143,16 +157,46 @@ func (n *vNet) NewHost(name, ip string) *vHost {
 
 // Connect makes a dial b (a's connection is outbound, b's inbound).
 func (n *vNet) Connect(a, b peer.ID) error {
+	n.mu.Lock()
+	delete(n.down, vPair(a, b))
+	n.mu.Unlock()
 	_, err := n.mn.ConnectPeers(a, b)
 	return err
 }
 
+// Disconnect closes the connection. mocknet tears a connection down in
+// several asynchronous steps (streams are reset before the connection leaves
+// the peer's table), which real transports do not expose; the pair is marked
+// down first so that wrapped hosts see "not connected" from this instant on.
 func (n *vNet) Disconnect(a, b peer.ID) error {
+	n.mu.Lock()
+	n.down[vPair(a, b)] = true
+	n.mu.Unlock()
 	return n.mn.DisconnectPeers(a, b)
 }
 
 func (n *vNet) Connected(a, b peer.ID) bool {
-	return n.mn.Net(a).Connectedness(b) == network.Connected
+	return !n.isDown(a, b) && n.mn.Net(a).Connectedness(b) == network.Connected
+}
+
+// vNetwork hides mocknet's half-torn-down connections from the node.
+type vNetwork struct {
+	network.Network
+	h *vHost
+}
+
+func (v *vNetwork) Connectedness(p peer.ID) network.Connectedness {
+	if v.h.net.isDown(v.h.ID(), p) {
+		return network.NotConnected
+	}
+	return v.Network.Connectedness(p)
+}
+
+func (v *vNetwork) ConnsToPeer(p peer.ID) []network.Conn {
+	if v.h.net.isDown(v.h.ID(), p) {
+		return nil
+	}
+	return v.Network.ConnsToPeer(p)
 }
 
 // Close tears everything down; afterwards no goroutine of the network may
@@ -247,6 +291,8 @@ type vHost struct {
 
 func (h *vHost) ConnManager() connmgr.ConnManager { return h.cm }
 
+func (h *vHost) Network() network.Network { return &vNetwork{Network: h.Host.Network(), h: h} }
+
 func (h *vHost) Connect(ctx context.Context, pi peer.AddrInfo) error {
 	h.mu.Lock()
 	h.connects = append(h.connects, pi)
@@ -269,6 +315,9 @@ func (h *vHost) Connects() []peer.AddrInfo {
 }
 
 func (h *vHost) NewStream(ctx context.Context, p peer.ID, pids ...protocol.ID) (network.Stream, error) {
+	if h.net.isDown(h.ID(), p) {
+		return nil, fmt.Errorf("not connected to %s", p)
+	}
 	if r := h.inj.match(vOpNewStream, p); r != nil {
 		if r.delay > 0 {
 			select {
@@ -280,6 +329,9 @@ func (h *vHost) NewStream(ctx context.Context, p peer.ID, pids ...protocol.ID) (
 		if r.err != nil {
 			return nil, r.err
 		}
+	}
+	if h.net.isDown(h.ID(), p) {
+		return nil, fmt.Errorf("not connected to %s", p)
 	}
 	s, err := h.Host.NewStream(ctx, p, pids...)
 	if err != nil {
@@ -345,10 +397,11 @@ func (s *vStream) Read(b []byte) (int, error) {
 // ---------------------------------------------------------------- puppets
 
 type vWire struct {
-	T    time.Time
-	From peer.ID // the node that sent it
-	RPC  *pb.RPC
-	Size int
+	T      time.Time
+	From   peer.ID // the node that sent it
+	RPC    *pb.RPC
+	Size   int
+	Opened time.Time // when the stream it arrived on was accepted
 }
 
 type vPuppet struct {
@@ -420,6 +473,7 @@ func (p *vPuppet) Unstall() {
 
 func (p *vPuppet) handle(s network.Stream) {
 	from := s.Conn().RemotePeer()
+	opened := time.Now()
 	p.mu.Lock()
 	if p.refuse {
 		p.mu.Unlock()
@@ -468,7 +522,7 @@ func (p *vPuppet) handle(s network.Stream) {
 			continue
 		}
 		p.mu.Lock()
-		p.recv = append(p.recv, vWire{T: time.Now(), From: from, RPC: rpc, Size: len(frame)})
+		p.recv = append(p.recv, vWire{T: time.Now(), From: from, RPC: rpc, Size: len(frame), Opened: opened})
 		cb := p.onRPC
 		p.mu.Unlock()
 		if cb != nil {
